@@ -709,6 +709,8 @@ class Explorer:
     # -- numeric primitives with IEEE corner forking
     def sqrt(self, x):
         if not isinstance(x, SymReal):
+            if not self.symbolic and self.sqrt_mode == 'goal' and not isinstance(x, onp.ndarray):
+                self.goal('sqrt_defined', sym.Holds(x >= 0), info='negative radicand (replay)')
             return math.sqrt(x) if x >= 0 else float('nan')
         if self.sqrt_mode == 'goal':
             self._defined_goal('sqrt_defined', x.z >= 0, 'negative radicand')
@@ -722,6 +724,8 @@ class Explorer:
 
     def divide(self, a, b):
         if not is_sym(a) and not is_sym(b):
+            if not self.symbolic and self.div_mode == 'goal' and not isinstance(b, onp.ndarray):
+                self.goal('division_defined', sym.Holds(b != 0), info='zero denominator (replay)')
             try:
                 return a / b
             except ZeroDivisionError:
@@ -875,7 +879,7 @@ def run_px(h, name, fn, cap=30, order=('core', 'nlsat'), feas_ms=300, max_paths=
         if not q.startswith('%s/%s.' % (h.ob, name)):
             return None
         gname = q[len('%s/%s.' % (h.ob, name)):]
-        h.replay_result = _replay_px(h, fn, gname, h.replay['inputs'], gram_dim)
+        h.replay_result = _replay_px(h, fn, gname, h.replay['inputs'], gram_dim, div_mode, sqrt_mode)
         return None
     ex = Explorer(feas_ms=feas_ms, max_paths=max_paths, gram_dim=gram_dim, div_mode=div_mode, sqrt_mode=sqrt_mode, shard=shard, shard_depth=shard_depth)
     ex.explore(fn)
@@ -953,7 +957,7 @@ def run_px(h, name, fn, cap=30, order=('core', 'nlsat'), feas_ms=300, max_paths=
             rec['model'] = vals
             rec['margin'] = used
             rec['path_decisions'] = g['trail']
-            rr = _replay_px(h, fn, gname, vals, gram_dim)
+            rr = _replay_px(h, fn, gname, vals, gram_dim, div_mode, sqrt_mode)
             rec.update(rr)
             if rr['status'] == 'violated':
                 rec['replay'] = h._write_replay(qn, vals, rr)
@@ -983,9 +987,9 @@ def _concrete_atom(atom):
     return not any(isz(x) for p in parts if p is not None for x in sym.flat(p))
 
 
-def _replay_px(h, fn, gname, vals, gram_dim):
+def _replay_px(h, fn, gname, vals, gram_dim, div_mode='fork', sqrt_mode='fork'):
     rr = {}
-    ex = Explorer(concrete=vals, gram_dim=gram_dim)
+    ex = Explorer(concrete=vals, gram_dim=gram_dim, div_mode=div_mode, sqrt_mode=sqrt_mode)
     try:
         ex.explore(fn)
     except Exception as e:
